@@ -38,7 +38,7 @@ ASSUMPTIONS = ["stages named by the property end where print_pqr is entered; I/O
                "a fault swallowed by the code's own handler followed by a complete file is a legitimate success"]
 MIN = {"quick": {"success_cells": 330, "natural_faults": 25, "stage_faults_fired": 70, "line_faults_fired": 120,
                  "failed_runs_checked": 200, "audit_events": 200},
-       "thorough": {"success_cells": 3000, "natural_faults": 300, "stage_faults_fired": 600, "line_faults_fired": 2500,
+       "thorough": {"success_cells": 3000, "natural_faults": 200, "stage_faults_fired": 600, "line_faults_fired": 2500,
                     "failed_runs_checked": 3000, "audit_events": 3000}}
 
 NA_SUPPORT = {"AMBER": "ACGUT", "CHARMM": "ACGUT", "TYL06": "ACGUT", "PARSE": "ACGU"}
@@ -80,7 +80,7 @@ def exc_class(name):
 
 def cases(tier, seed):
     out = []
-    reps = 1 if tier == "quick" else 8
+    reps = 1 if tier == "quick" else 40
     for rep in range(reps):
         for ff in common.FFS:
             for resn in topo.AMINO:
@@ -94,18 +94,18 @@ def cases(tier, seed):
         for resn in topo.AMINO:
             out.append({"kind": "cell", "ff": "PARSE", "resn": resn, "pos": "N", "seed": seed + rep, "opts": ["--neutraln"]})
             out.append({"kind": "cell", "ff": "PARSE", "resn": resn, "pos": "C", "seed": seed + rep, "opts": ["--neutralc"]})
-    nmix = 40 if tier == "quick" else 1500
+    nmix = 40 if tier == "quick" else 8000
     for spec in workload.standard_cases(tier, seed, nmix, nmix, frag_share=0.0,
                                         p={"variant_prob": 0.0, "na_prob": 0.15, "waters": [0, 3], "no_variants": []}):
         spec["kind"] = "mixed"
         spec["opts"] = [f"--ff={spec['ff']}"]
         out.append(spec)
     rng = random.Random(seed * 3 + 1)
-    nat = NATURAL * (1 if tier == "quick" else 8)
+    nat = NATURAL * (1 if tier == "quick" else 40)
     for i, name in enumerate(nat):
         out.append({"kind": "natural", "fault": name, "seed": seed * 11 + i, "sentinel": i % 2 == 0,
                     "entry": "cli" if i % 5 == 0 else "api"})
-    nst = 3 if tier == "quick" else 24
+    nst = 3 if tier == "quick" else 120
     needs = {"run_propka": "propka", "Biomolecule.apply_pka_values": "propka", "Biomolecule.remove_hydrogens": "propka",
              "Biomolecule.set_hip": "assign", "HydrogenRoutines.initialize_wat_optimization": "noopt",
              "Biomolecule.apply_name_scheme": "ffout", "drop_water": "ffout",
@@ -124,7 +124,7 @@ def cases(tier, seed):
             out.append({"kind": "stage", "mod": mod, "fn": fn, "exc": EXC[(si + k) % len(EXC)],
                         "nth": ([1, 2, 3][k % 3] if fn in multi else 1),
                         "seed": seed * 17 + k * 100 + si, "sentinel": (si + k) % 2 == 0, "variant": variant})
-    nline = 12 if tier == "quick" else 200
+    nline = 12 if tier == "quick" else 1000
     for i in range(nline):
         out.append({"kind": "line", "seed": seed * 23 + i, "n": 14, "sentinel": i % 2 == 0,
                     "variant": ["plain", "propka", "noopt", "ffout"][i % 4]})
